@@ -380,6 +380,79 @@ impl Out {
     }
 }
 
+/// Streams whose decode-unit boundaries fall exactly on chosen stream offsets (the offsets at which
+/// the reader's 8 KiB window is full), obtained by padding with a MESSAGE record of the right size.
+/// `kind`: 0 = a record ends at the target, 1 = the message-id / payload boundary of the next record
+/// is at the target, 2 = the record after the padding ends at the target.
+fn aligned_items(seed: u64, targets: &[usize], kind: u8) -> Vec<Value> {
+    let hlen = header(2).len();
+    let mut g = Gen::new(seed, 63);
+    let mut pos = hlen;
+    let len_of = |idx: usize, it: &Value| {
+        let (k, r) = encode_item(idx, it);
+        (k.len(), r.len())
+    };
+    for (tno, t) in targets.iter().enumerate() {
+        // the record that follows the padding: a PLAYER_NEW with a 3-byte message id
+        let next = json!({"k": "pn", "c": 70 + tno, "a": 5, "b": -70});
+        let (nk, nr) = len_of(0, &next);
+        let extra = match kind {
+            0 => 0,
+            1 => nk,
+            _ => nk + nr,
+        };
+        // some ordinary traffic, as long as there is room before the target
+        for round in 0..3 {
+            let before = g.items.len();
+            g.tick(2);
+            let add: usize = g.items[before..].iter().map(|it| { let (a, b) = len_of(0, it); a + b }).sum();
+            if pos + add + extra + 600 > *t || round == 2 {
+                g.items.truncate(before);
+                // undo the generator's bookkeeping of the dropped tick as far as validity needs it:
+                // rebuild alive / inputs from the kept items
+                g.alive.clear();
+                g.inputs.clear();
+                for it in g.items.iter() {
+                    let c = it["c"].as_i64().unwrap_or(0) as i32;
+                    match it["k"].as_str().unwrap_or("") {
+                        "pn" => g.alive.push(c),
+                        "po" => g.alive.retain(|x| *x != c),
+                        "in" => if !g.inputs.contains(&c) { g.inputs.push(c) },
+                        _ => {}
+                    }
+                }
+                break;
+            }
+            pos += add;
+        }
+        // padding message: 1 + VarLen(cid) + VarLen(size) + size bytes
+        let want = *t - extra - pos;
+        let mut size = want.saturating_sub(8);
+        loop {
+            let pad = json!({"k": "o", "s": "msg", "c": 0, "a": size, "b": 0});
+            let (a, b) = len_of(0, &pad);
+            if a + b == want {
+                g.items.push(pad);
+                pos += want;
+                break;
+            }
+            size += 1;
+            if size > want {
+                eprintln!("harness: cannot pad to {}", t);
+                std::process::exit(3);
+            }
+        }
+        g.items.push(next.clone());
+        g.alive.push(70 + tno as i32);
+        pos += nk + nr;
+    }
+    for _ in 0..3 {
+        g.tick(2);
+    }
+    g.items.push(json!({"k": "fin"}));
+    g.items
+}
+
 fn drive(args: &[String]) {
     let seed: u64 = args[0].parse().unwrap_or(1);
     let thorough = args[1] == "thorough";
@@ -464,6 +537,47 @@ fn drive(args: &[String]) {
         }
         out.w.flush().unwrap();
         files.push(json!({"path": path, "mode": "detailed", "events": out.events, "runs": out.runs}));
+    }
+
+    // ---- file group 1b: record boundaries aligned with the offsets at which the 8 KiB window is
+    // full (8192 * m, and one byte before / after), deterministic, in both tiers
+    {
+        let path = format!("{}-aligned.ndjson", prefix);
+        let mut out = Out::new(&path);
+        let fills: Vec<usize> = vec![8192, 16384, 24576];
+        let mut variants: Vec<(Vec<usize>, u8)> = vec![
+            (fills.clone(), 0), (fills.clone(), 1), (fills.clone(), 2),
+            (vec![8191, 16384], 0), (vec![8193, 16384], 0), (vec![8192], 0),
+        ];
+        if thorough {
+            variants.push((vec![8191, 16383, 24575], 1));
+            variants.push((vec![8193, 16385, 24577], 2));
+            variants.push((vec![8192, 16383, 24576], 0));
+        }
+        for (vno, (targets, kind)) in variants.iter().enumerate() {
+            let items = aligned_items(seed ^ (vno as u64 + 4242), targets, *kind);
+            let s = stream(2, items, 0, 0);
+            let enc = encode_stream(&s);
+            // the alignment itself is checked here (tool failure, not a verdict)
+            for t in targets {
+                let hit = enc.spans.iter().any(|(a, b, c)| match kind { 1 => b == t, _ => c == t || a == t });
+                if !hit {
+                    eprintln!("harness: no unit boundary at {}", t);
+                    std::process::exit(3);
+                }
+            }
+            n_streams += 1;
+            max_bytes = max_bytes.max(enc.bytes.len());
+            out.run(&s, false, Frag::Whole, true);
+            out.run(&s, true, Frag::Each(8192), true);
+            out.run(&s, true, Frag::Each(4096), true);
+            out.run(&s, true, Frag::Sizes(random_sizes(&mut rng, enc.bytes.len())), true);
+            if thorough || targets.len() == 1 {
+                out.run(&s, true, Frag::Each(1), true);
+            }
+        }
+        out.w.flush().unwrap();
+        files.push(json!({"path": path, "mode": "detailed", "events": out.events, "runs": out.runs, "need_cover": "compact-all"}));
     }
 
     // ---- file group 2: byte-level corruption (the spec cannot predict the items: property level only)
